@@ -301,7 +301,13 @@ func (a *Act) exec(instr ssa.Instruction, st *State, reach string, b *ssa.BasicB
 	case *ssa.Go:
 		a.goStmt(in, st, reach)
 	case *ssa.Range:
-		a.env[in] = "RANGE"
+		if mt, ok := in.X.Type().Underlying().(*types.Map); ok {
+			// ghost iterator object: its map-domain row is the set of keys visited so far (empty now)
+			ref := a.alloc(st, a.nm(in.Name()), allocType{key: "obj:rangeiter:" + mt.String(), typ: types.NewMap(mt.Key(), types.NewStruct(nil, nil))})
+			a.env[in] = ref
+		} else {
+			a.env[in] = "RANGE"
+		}
 	case *ssa.Next:
 		a.nextOp(in, st, reach)
 	case *ssa.Send:
